@@ -51,8 +51,21 @@ Record config := {
   c_T : Z;                         (* endpoint timeout, ns *)
   c_parent : option Z;             (* deadline of the context handed in (harness / client), ns after arrival *)
   c_http : bool;                   (* backends are proxy.NewHTTPProxy... over a stub executor *)
-  c_backends : list (list beh)     (* per backend: what each of its concurrent_calls attempts does *)
+  c_backends : list (list beh);    (* per REGULAR backend: what each of its concurrent_calls attempts does *)
+  c_shadow : option Z              (* Some s: the pipeline is built by proxy.NewShadowFactory around the
+                                      default factory and the endpoint also has a shadow backend whose
+                                      shadow_timeout is s ns (the backend timeout when not configured).
+                                      shadowFactory.New builds the regular pipe from a copy of the endpoint
+                                      definition restricted to the regular backends, with the endpoint's own
+                                      timeout; the shadow pipe runs detached under context.Background() +
+                                      s and is C16's business.  Nothing below reads this field: the regular
+                                      calls' contexts are derived from the endpoint timeout alone. *)
 }.
+
+(* the same endpoint with another (or no) shadow backend *)
+Definition with_shadow (c : config) (s : option Z) : config :=
+  {| c_level := c_level c; c_seq := c_seq c; c_T := c_T c; c_parent := c_parent c; c_http := c_http c;
+     c_backends := c_backends c; c_shadow := s |}.
 
 Definition nbackends (c : config) : nat := List.length (c_backends c).
 Definition multi (c : config) : bool := (1 <? nbackends c)%nat.
@@ -107,6 +120,15 @@ Section Pipeline.
   Definition ctx_call (i j : nat) : ctx :=
     if concurrent c i then with_cancel (ctx_conc i) (tok_att i j) else ctx_conc i.
 End Pipeline.
+
+(* the detached context of the shadow pipe (proxy/shadow.go newContextWrapperWithTimeout):
+   Background + shadow timeout, its own token *)
+Definition tok_shadow : nat := 3.
+Definition ctx_shadow (c : config) (now : Z) : option ctx :=
+  match c_shadow c with
+  | Some s => Some (with_timeout background tok_shadow now s)
+  | None => None
+  end.
 
 (* the pipeline derived at least one context on the way to backend i *)
 Definition derived (c : config) (i : nat) : bool := routed c || multi c || concurrent c i.
